@@ -129,7 +129,11 @@ def _decorator_name(d: ast.AST) -> str:
 class Program:
     """All modules of the package, with indexes by class and function."""
 
-    def __init__(self, root: Optional[str] = None, package: Optional[str] = None):
+    def __init__(self, root: Optional[str] = None, package: Optional[str] = None,
+                 overrides: Optional[Dict[str, str]] = None):
+        # overrides: {relative path: source text} analysed instead of the file on disk (used by the
+        # thorough tier to apply an edit to the in-memory program; nothing is written)
+        self.overrides = overrides or {}
         self.root = os.path.abspath(root or repo_root())
         self.package = package or self._discover_package()
         self.modules: Dict[str, ModuleInfo] = {}
@@ -165,7 +169,7 @@ class Program:
                 if dotted.endswith(".__init__"):
                     dotted = dotted[: -len(".__init__")]
                 try:
-                    src = open(path, encoding="utf-8").read()
+                    src = self.overrides[rel] if rel in self.overrides else open(path, encoding="utf-8").read()
                     tree = ast.parse(src, filename=rel)
                 except SyntaxError as e:
                     raise AnalysisError(f"cannot parse {rel}: {e}") from e
